@@ -253,18 +253,40 @@ func runSession(key []byte, s Session, salt uint32, st *runStats) string {
 				}
 			}
 			writes := sc.WriteLog[w0:]
-			// predict each frame
+			// a protected payload that does not fit one frame together with its tag (and, on the first protected frame
+			// of the direction, the base IV) is sent as two frames: as much as fits, then the rest
+			type piece struct {
+				pl  []byte
+				end byte
+			}
+			var pieces []piece
+			ctr := m.ref.Ctr
 			for j, pl := range payloads {
 				end := byte(1)
 				if j < len(payloads)-1 {
 					end = 0
 				}
+				limit := 1<<20 - 16
+				if ctr == 0 {
+					limit -= 16
+				}
+				if protected && len(pl) > limit {
+					pieces = append(pieces, piece{pl[:limit], 0}, piece{pl[limit:], end})
+					ctr += 2
+				} else {
+					pieces = append(pieces, piece{pl, end})
+					ctr++
+				}
+			}
+			// predict each frame
+			for j, pc := range pieces {
+				pl, end := pc.pl, pc.end
 				atLimit := protected && m.ref.Ctr == 0xffffffff
 				nearLimit := protected && m.ref.Ctr == 0xfffffffe
 				if j >= len(writes) {
 					// the sender emitted nothing for this frame: only legal as a refusal at the counter limit
 					if sendErr == nil {
-						return fmt.Sprintf("op %d: send reported success but emitted %d of %d frames", oi, len(writes), len(payloads))
+						return fmt.Sprintf("op %d: send reported success but emitted %d of %d frames", oi, len(writes), len(pieces))
 					}
 					if !(atLimit || nearLimit || m.refused) {
 						return fmt.Sprintf("op %d: send failed (%v) although the frame counter is %d", oi, sendErr, m.ref.Ctr)
@@ -299,8 +321,8 @@ func runSession(key []byte, s Session, salt uint32, st *runStats) string {
 						oi, op.Kind, d, j, protected, m.ref.Ctr-1, kit.FirstDiff(want, got))
 				}
 			}
-			if len(writes) > len(payloads) {
-				return fmt.Sprintf("op %d: sender emitted %d frames for %d", oi, len(writes), len(payloads))
+			if len(writes) > len(pieces) {
+				return fmt.Sprintf("op %d: sender emitted %d frames for %d", oi, len(writes), len(pieces))
 			}
 			if sendErr != nil {
 				return fmt.Sprintf("op %d: send failed after emitting everything: %v", oi, sendErr)
